@@ -12,13 +12,14 @@ pub mod c09;
 pub mod c13;
 pub mod c15;
 pub mod c16;
+pub mod c17;
 #[cfg(feature = "loom")]
 pub mod c18;
 pub mod c19;
 pub mod c20;
 pub mod lazy;
 
-pub const ALL: &[&str] = &["C01", "C02", "C03", "C04", "C05", "C06", "C07", "C08", "C09", "C10", "C11", "C12", "C13", "C14", "C15", "C16", "C18", "C19", "C20"];
+pub const ALL: &[&str] = &["C01", "C02", "C03", "C04", "C05", "C06", "C07", "C08", "C09", "C10", "C11", "C12", "C13", "C14", "C15", "C16", "C17", "C18", "C19", "C20"];
 
 pub fn families(prop: &str, tier: Tier, variant: &str) -> Vec<Family> {
     match prop {
@@ -37,6 +38,7 @@ pub fn families(prop: &str, tier: Tier, variant: &str) -> Vec<Family> {
         "C16" => c16::families(tier, variant),
         #[cfg(feature = "loom")]
         "C18" => c18::families(tier, variant),
+        "C17" => c17::families(tier, variant),
         "C19" => c19::families(tier, variant),
         "C20" => c20::families(tier, variant),
         "C13" => c13::families(tier, variant),
